@@ -42,7 +42,7 @@ func closeSerialisedWithFlush(c *core.Ctx, R string) {
 
 // announcedBeforeDispatch (C06.12 = C02.17).
 func announcedBeforeDispatch(c *core.Ctx, R string) {
-	c.Rule(R, "the application is handed a session before that session dispatches packets: between NewSocket (which wires the transport — whose reader goroutine is already running — to socket.onPacket and sends the open packet) and Emit(\"connection\") in Handshake, either the open packet is withheld (the transport is made not writable before NewSocket and writable again after the event) or onPacket waits for the announcement; otherwise a client that answers the open packet at once has its first message dispatched to no listener")
+	c.Rule(R, "the application is handed a session before that session dispatches packets: between NewSocket (which wires the transport — whose reader goroutine is already running — to socket.onPacket and sends the open packet) and Emit(\"connection\") in Handshake, either the transport's reader is started only after the event (Start, C08.6), or the open packet is withheld (the transport is made not writable before NewSocket and writable again after the event), or onPacket waits for the announcement; otherwise a client that answers the open packet at once has its first message dispatched to no listener")
 	u := c.Fn(R, "engine.(*baseServer).Handshake")
 	if u == nil {
 		return
@@ -84,8 +84,10 @@ func announcedBeforeDispatch(c *core.Ctx, R string) {
 			return true
 		})
 	}
-	c.Check(R, "engine.(*baseServer).Handshake/session-dispatches-before-connection-event", ns.Pos(), g.Dominates(conn.Loc, ns.Loc) || withheld || gated,
-		keyf("open packet withheld until after the event: %v; onPacket waits for the announcement: %v", withheld, gated))
+	started := readerStartsAfterConnection(c)
+	c.Check(R, "engine.(*baseServer).Handshake/session-dispatches-before-connection-event", ns.Pos(), g.Dominates(conn.Loc, ns.Loc) || withheld || gated || started,
+		keyf("open packet withheld until after the event: %v; onPacket waits for the announcement: %v; the transport's reader is started after the event: %v", withheld, gated, started))
+	readerStartedByConsumer(c, R)
 }
 
 // upgradeResponseHeaders (C17.12).
